@@ -25,12 +25,17 @@ def pep_slot_ok(got, vtext):
     return True
 
 
-def region_text(region, vtree, state, vtext):
-    """Expected text of a slot."""
+def region_text(region, vtree, state, vtext, clock_fields=None):
+    """Expected text of a slot.  Calendar parts that the version itself does not carry come from the clock
+    (README: `Copyright (c) 2018-YYYY` next to a SemVer version pattern)."""
     if region == "{version}":
         return vtext
     if region == "{pep440_version}":
         return pep440.canonical(vtext)
+    if clock_fields:
+        merged = dict(clock_fields)
+        merged.update({k: v for k, v in state.items() if v is not None})
+        state = merged
     return rp.render(legacy.tokenize_any(region), state)
 
 
@@ -65,8 +70,17 @@ class World:
         self.dir = None
         self.repo = None
         self.pep_cache = {}
+        self.clock = None     # date whose calendar fills parts the version pattern does not carry (set by campaigns)
+        if project.get("clock_slots"):
+            import datetime as _dt
+            self.clock = _dt.date.fromisoformat(project["epoch"])
 
     # ---- expected content ---------------------------------------------------------------------
+    start_clock_fields = None
+
+    def clock_fields(self):
+        return rp.cal_fields(self.clock) if self.clock is not None else None
+
     def pep_initial(self, vtext):
         """Starting content of a {pep440_version} slot: what bumpver itself accepts (see adapter)."""
         if vtext not in self.pep_cache:
@@ -89,11 +103,11 @@ class World:
                 if isinstance(seg, str):
                     out.append(seg)
                 elif override and (path, seg["slot"]) in override:
-                    out.append(region_text(seg["slot"], self.vtree, override[(path, seg["slot"])], vtext))
+                    out.append(region_text(seg["slot"], self.vtree, override[(path, seg["slot"])], vtext, self.clock_fields()))
                 elif initial and seg["slot"] == "{pep440_version}":
                     out.append(self.pep_initial(vtext))
                 else:
-                    out.append(region_text(seg["slot"], self.vtree, state, vtext))
+                    out.append(region_text(seg["slot"], self.vtree, state, vtext, self.clock_fields()))
             out.append(line["end"])
         return "".join(out)
 
@@ -200,13 +214,16 @@ class World:
                               "file %r: literal %r after a slot not found" % (path, nxt[:40]))
                 return
             got = have[pos:end]
-            want = region_text(seg["slot"], self.vtree, new_state, new_text)
+            want = region_text(seg["slot"], self.vtree, new_state, new_text, self.clock_fields())
             if got != want and seg["slot"] == "{pep440_version}" and pep_slot_ok(got, new_text):
                 ctx.count("pep440_slot_equal_not_canonical")
                 pos = end
                 continue
             if got != want:
-                old = region_text(seg["slot"], self.vtree, old_state, old_text) if old_state is not None else None
+                try:
+                    old = region_text(seg["slot"], self.vtree, old_state, old_text, self.start_clock_fields) if old_state is not None else None
+                except Exception:
+                    old = None
                 if seg["slot"] == "{pep440_version}" and old_text in self.pep_cache and got == self.pep_cache[old_text]:
                     old = got
                 f = dict(facts, path=path, region=seg["slot"], regime=self._regime(path),
